@@ -160,6 +160,14 @@ func (clnt *Clnt) recv() {
 		pos += n
 		for pos > 4 {
 			sz, _ := Gint32(buf)
+			if sz > atomic.LoadUint32(&clnt.Msize) {
+				// a frame larger than the negotiated msize cannot be buffered: fail the connection
+				clnt.Lock()
+				clnt.err = &Error{"frame larger than msize", EINVAL}
+				_ = clnt.conn.Close()
+				clnt.Unlock()
+				goto closed
+			}
 			if pos < int(sz) {
 				if len(buf) < int(sz) {
 					b := make([]byte, atomic.LoadUint32(&clnt.Msize)*8)
